@@ -81,7 +81,7 @@ func c03(ctx *core.Ctx) {
 	ctx.Rule("tables with distinct (method, template) pairs and distinct root shapes (CurlyRouter: variable and nested literal roots; RouterJSR311: literal roots). Oracle 1: the same table built under k registration permutations of services and routes must give every request the same outcome signature. Oracle 2: eligibility of a competing route/root is decided by the real code on a container holding only that route/service; the selected route (root) must not be dominated by an eligible one. Non-trivial = a request with >= 2 eligible routes or >= 2 matching roots; distinct by (router, level, selected shape, competitor shape).")
 	ctx.Assume("excluded by the property: roots of the same literal/variable shape, same-method routes differing only in variable names",
 		"root-level choice is made visible by marker routes GET / and GET /{tail:*} added to every service (workload choice, no hook)")
-	tables := ctx.N(3000, 40000)
+	tables := ctx.N(3000, 200000)
 	perTable := ctx.N(30, 40)
 	if !ctx.Quick() {
 		perTable = 40
@@ -267,7 +267,7 @@ func c04(ctx *core.Ctx) {
 	quietLogs()
 	ctx.Rule("every invocation observed while sending template-derived requests (values with '.', ':', '%', unicode, spaces, 80 chars; root variables combined with route variables; regex, suffix, verb, tail wildcard) to seeded tables under both routers, via Dispatch and ServeHTTP. Oracle: bound names == declared variables; each value == reference binding; substitution reproduces the path up to the trailing slash. Non-trivial = an invocation of a route with >= 1 variable; distinct by (router, template kind-shape, trailing slash).")
 	ctx.Assume("RouterJSR311 keeps a trailing slash inside a tail-wildcard value: compared modulo that slash (DESIGN §4.3)")
-	tables := ctx.N(5000, 60000)
+	tables := ctx.N(5000, 400000)
 	perTable := ctx.N(40, 50)
 	if !ctx.Quick() {
 		perTable = 50
@@ -357,7 +357,7 @@ func c14(ctx *core.Ctx) {
 	if !restful.TrimRightSlashEnabled {
 		ctx.Violation(-1, "c14:default-strategy", "TrimRightSlashEnabled is not true by default", nil)
 	}
-	tables := ctx.N(5000, 60000)
+	tables := ctx.N(5000, 400000)
 	perTable := ctx.N(40, 60)
 	if !ctx.Quick() {
 		perTable = 60
